@@ -279,7 +279,7 @@ func (r *c05Runner) one(s *core.StructSpec, in []byte, k int, what string) *Fail
 		return fail(f)
 	}
 	if t1, t2 := allocBounds(k, len(in), verdict.MaxDepth, verdict.Prealloc); alloc > t1 {
-		if alloc <= t2 && verdict.MaxDepth >= 2 && os.Getenv("VERIF_REPLAY") == "" {
+		if alloc <= t2 && verdict.MaxDepth >= 2 && os.Getenv("VERIF_REPLAY") == "" && openFinding("F20") {
 			// open known finding F20 (nested counts, each bounded only by the bytes remaining at its own
 			// level): excluded from the search and counted, so that the campaign goes on; the recorded
 			// case is replayed by the driver and reported as KNOWN-FINDING while it reproduces
@@ -288,7 +288,9 @@ func (r *c05Runner) one(s *core.StructSpec, in []byte, k int, what string) *Fail
 			f := failf("alloc-blowup", "DecodeObject allocated %d bytes for %d input bytes nested %d levels (bound %d; with the nested-count amplification of F20: %d; err=%.200v)", alloc, len(in), verdict.MaxDepth, t1, t2, err)
 			if alloc <= t2 && verdict.MaxDepth >= 2 {
 				f.Class = "alloc-blowup-nested-counts"
-				f.Known = "F20"
+				if openFinding("F20") {
+					f.Known = "F20"
+				}
 			}
 			return fail(f)
 		}
